@@ -72,6 +72,13 @@ STATIC = [
     C(37, "MoneyHolder", own=[F("amount", pytype="Optional[Decimal]"), F("count", pytype="Optional[int]"),
                               F("label", "attr")]),
     C(38, "MoneyTyped", own=[F("price", pytype='Optional["Money"]')], ok=False),
+    # a QName-typed field (prefix resolution against the element's in-scope namespaces)
+    C(26, "RefBox", own=[F("ref", pytype="Optional[QName]"), F("rleaf", type=1)]),
+    # an attributes wildcard and an element wildcard on one class / on separate classes: the same qualified name
+    # may come once as an undeclared attribute and once as an undeclared child
+    C(27, "Bag", own=[F("attrs", "attrs", pytype="Dict[str, str]"), F("content", "wild", "any", True, "##any")]),
+    C(28, "BagA", own=[F("attrs", "attrs", pytype="Dict[str, str]"), F("bx")]),
+    C(29, "BagE", own=[F("content", "wild", "any", True, "##any"), F("by", "attr")]),
     # an element before and after a wildcard: get_element_vars has to sort (wildcards come first in its chain)
     C(25, "WildMid", ns="urn:w", own=[F("head"), F("body", "wild", "any", True, "##any"), F("foot")]),
 ]
@@ -135,7 +142,7 @@ def ostr(s):
 
 
 def c_field(f):
-    kind = {"attr": "KAttr", "elem": "KElem", "wild": "KWild"}[f["kind"]]
+    kind = {"attr": "KAttr", "elem": "KElem", "wild": "KWild", "attrs": "KAttr"}[f["kind"]]
     t = f["type"]
     ty = "TStr" if t == "str" else "TAny" if t == "any" else f"(TCls {t}%N)"
     return f"(mkF {cstr(f['name'])} {kind} {ostr(f['ns'])} {ty} {cbool(f['list'])} {ostr(f['base_ns'])})"
@@ -538,6 +545,21 @@ def build_ops(ck, fresh_ser, fresh_enc):
                 add(f"odecs:{cname}:{ln}", (), kind="odecs", clazz=cid, data=data)
         add(f"odec:{cname}:non-conv", (), kind="odec", clazz=cid, data={"items": ["abc", conv]})
         add(f"ojser:{cname}:conv-non", (), kind="ojser", clazz=cid, fields=[["items", lists["conv-non"]]])
+    # prefixes: one document declares a prefix, another uses it undeclared (QName value, xsi:type), through ONE parser
+    for hd in ("native", "lxml"):
+        kw = {"handler": "native"} if hd == "native" else {}
+        add(f"oparse:RefBox-decl:{hd}", (), kind="oparse", clazz=26, doc='<RefBox xmlns:p="urn:first"><ref>p:a</ref></RefBox>', **kw)
+        add(f"oparse:RefBox-undecl:{hd}", (), kind="oparse", clazz=26, doc="<RefBox><ref>p:a</ref><rleaf><x>1</x></rleaf></RefBox>", **kw)
+        add(f"oparse:RefBox-other:{hd}", (), kind="oparse", clazz=26, doc='<RefBox xmlns:p="urn:second"><ref>p:b</ref></RefBox>', **kw)
+        add(f"oparse:Holder-decl-p:{hd}", (), kind="oparse", clazz=9,
+            doc=f'<h:Holder xmlns:h="urn:h" xmlns:p="urn:h2" xmlns:xsi="{XSI}"><h:item xsi:type="p:Der2"><h:b>1</h:b></h:item></h:Holder>', **kw)
+        add(f"oparse:Holder-undecl-p:{hd}", (), kind="oparse", clazz=9,
+            doc=f'<h:Holder xmlns:h="urn:h" xmlns:xsi="{XSI}"><h:item xsi:type="p:Der2"><h:b>1</h:b></h:item></h:Holder>', **kw)
+        # one name as attribute and as child element of classes with attribute / element wildcards
+        for cname, cid in (("Bag", 27), ("BagA", 28), ("BagE", 29)):
+            add(f"oparse:{cname}-attr:{hd}", (), kind="oparse", clazz=cid, doc=f'<{cname} code="7"/>', **kw)
+            add(f"oparse:{cname}-child:{hd}", (), kind="oparse", clazz=cid, doc=f"<{cname}><code>7</code></{cname}>", **kw)
+            add(f"oparse:{cname}-both:{hd}", (), kind="oparse", clazz=cid, doc=f'<{cname} code="1" other="2"><other>3</other><code>4</code></{cname}>', **kw)
     # user subclasses of primitive types: values (Money(Decimal), MyInt(int), MyStr(str)) and a field typed Money
     add("oser:MoneyHolder:money", (), kind="oser", clazz=37, fields=[["amount", ["m", "1.50"]], ["count", ["mi", 5]],
                                                                       ["label", ["ms", "lbl"]]])
@@ -548,6 +570,8 @@ def build_ops(ck, fresh_ser, fresh_enc):
     add("oparse:MoneyTyped", (), kind="oparse", clazz=38, doc="<MoneyTyped><price>1.5</price></MoneyTyped>")
     add("odecs:MoneyTyped", (), kind="odecs", clazz=38, data={"price": "1.5"})
     add("build:38,None", (), kind="call", name="build", args=[38, None])
+    add("odec:Num-abc", (), kind="odec", clazz=33, data={"n": "abc"})       # lenient decoder: a warning only
+    add("odecs:Num-abc", (), kind="odecs", clazz=33, data={"n": "abc"})     # strict decoder: ParserError
     for c in (30, 32, 33, 34, 36, 19, 18):     # (35: a compound field is described only as far as its namespace goes)
         add(f"build:{c},urn:q", (), kind="call", name="build", args=[c, "urn:q"])
         add(f"build:{c},None", (), kind="call", name="build", args=[c, None])
@@ -647,14 +671,26 @@ def gen_sequences(ck, ops):
     kinds["compound"] = 0
     for cid, (cname, _) in COMPOUND.items():
         mine = [i for i, o in enumerate(ops) if o.get("clazz") == cid and o["kind"] in ("oser", "ojser", "odec", "odecs")]
-        for a in mine:
-            for b in mine:
-                if a != b:
-                    seqs.append([{"op": a}, {"op": b}])
-                    kinds["compound"] += 1
+        pairs = [(a, b) for a in mine for b in mine if a != b]
+        if ck.quick and len(pairs) > 60:
+            pairs = r.sample(pairs, 60)
+        for a, b in pairs:
+            seqs.append([{"op": a}, {"op": b}])
+            kinds["compound"] += 1
         for _ in range(ck.n(3, 40)):
             seqs.append([{"op": r.choice(mine)} for _ in range(r.randint(3, 7))])
             kinds["compound"] += 1
+    # prefix / wildcard-lookup groups: all ordered pairs and triples inside a group
+    kinds["groups"] = 0
+    for key in ("RefBox", "Holder-decl-p", "Bag-", "BagA-", "BagE-"):
+        for hd in ("native", "lxml"):
+            mine = [i for i, o in enumerate(ops) if o["tag"].startswith("oparse:") and o["tag"].endswith(":" + hd)
+                    and (key in o["tag"] or (key == "Holder-decl-p" and "Holder-undecl-p" in o["tag"]))]
+            for n in (2, 3):
+                for tup in itertools.product(mine, repeat=n):
+                    if len(set(tup)) > 1:
+                        seqs.append([{"op": i} for i in tup])
+                        kinds["groups"] += 1
     # the witnesses of the refutation lemmas (coq/Properties/C14.v)
     W = [["ser:PA", "ser:PB", "parse:PB"],
          ["find_type:{urn:late}Late", ENVS[0], "find_type:{urn:late}Late", "parse-auto:Late"],
@@ -872,6 +908,11 @@ def run(ck: Check):
                     continue
                 calls_ += 1
                 kind = ops[st["op"]]["kind"]
+                if out.get("inst") and not any(v[0] == "instance-attribute-changed" for v in ck.violations):
+                    ck.failure("instance-attribute-changed",
+                               f"operation {ops[st['op']]['tag']} left a configuration object / attribute of a shared parser, "
+                               f"serializer or decoder changed: {out['inst']}",
+                               {"sequence": [ops[x["op"]]["tag"] if "op" in x else x for x in seq], "change": out["inst"]})
                 if out.get("glob") and not any(v[0] == "process-global-state-changed" for v in ck.violations):
                     # process-wide library state is shared by used and fresh instances alike: an operation that
                     # changes it makes later results depend on the history although shared == fresh
